@@ -262,6 +262,37 @@ def encoders_refuse_only_without_prefix(ctx):
             ctx.undecided("encoder-refuses-only-without-prefix:%s" % nm.split(".")[-1], ctx.where(g), "%s answers None under `%s`; this rule reads `%s`" % (nm, [o[:40] for o in ops][:3], atom))
 
 
+def hash_text_compiles_as_data(ctx, tp):
+    """the builders hand the hash to the script compiler as BARE hex text (`OP_HASH160 %s OP_EQUAL`): the compiler reads a token
+    as a decimal NUMBER first, so a hash whose 40 (or 64) hex digits all happen to be decimal digits is data only because the
+    number reading is bounded below 10**39 -- the bound is part of what `for_info` builds"""
+    bare = sorted(t for t, (tmpl, fields) in tp.items() if any(tok == "%s" for tok in tmpl.split()) and fields and fields[0] in ("hash160", "hash256", "synthetic_key"))
+    if not bare:
+        return
+    digits = 40 if any(tp[t][1][0] == "hash160" for t in bare) else 64
+    f = ctx.func("pycoin/vm/ScriptTools.py", "ScriptTools.compile_expression")
+    w = sym.walk(ctx, f)
+    tparam = f.params()[1]
+    nums = [e for e in w.exits if e.kind == "return" and e.value is not None and "int_to_script_bytes(" in norm(e.value)]
+    if not nums:
+        ctx.undecided("hash-text-compiles-as-data", ctx.where(f), "compile_expression: no exit returning int_to_script_bytes(..) found")
+        return
+    for e in nums:
+        ops = [o for o in (gi.f_opaques(e.cond) if e.cond not in (True, False) else []) if isinstance(o, str)]
+        okb = False
+        for o in ops:
+            m = re.fullmatch(r"(?:abs\()?int\(%s\)\)? < (\d+)" % tparam, o)
+            if m and int(m.group(1)) <= 10 ** (digits - 1) and sym.entails(e.cond, ("op", o)):
+                okb = True
+            m = re.fullmatch(r"len\(%s\) < (\d+)" % tparam, o)
+            if m and int(m.group(1)) <= digits and sym.entails(e.cond, ("op", o)):
+                okb = True
+        ctx.check(okb, "hash-text-compiles-as-data", ctx.where(f, e.node),
+                  "compile_expression reads a token as a decimal number under `%s`, with no bound below 10**%d: the builders (%s) hand a hash over as bare hex text, and a hash whose %d hex digits are all decimal digits "
+                  "(and do not start with 0) is then pushed as a script number, not as the %d-byte hash" % (str(e.cond)[-120:], digits - 1, ", ".join(bare), digits, digits // 2),
+                  sample={"bare_templates": bare, "number_reading_bounded_below": "10**%d" % (digits - 1)})
+
+
 def c08_3(ctx):
     encoders_refuse_only_without_prefix(ctx)
     tp = _templates(ctx)
@@ -295,6 +326,7 @@ def c08_3(ctx):
                   "script type %s is recognised by template `%s` but built from `%s` (field %s): a script reported as %s would not be rebuilt byte for byte" % (typ, tmpl, btmpl, fields, typ),
                   sample={"type": typ, "matcher": tmpl, "builder": btmpl})
     ctx.check(seen == set(want_placeholder), "template-coverage", ctx.where(f), "info_for_script does not cover %s" % sorted(set(want_placeholder) - seen))
+    hash_text_compiles_as_data(ctx, tp)
     ms = tp.get("multisig")
     ctx.check(ms is not None and ms[0] == "%d %s %d OP_CHECKMULTISIG", "multisig-builder", CAPI + ":1", "multisig scripts are not built as m <keys> n OP_CHECKMULTISIG")
     _refcheck(ctx, AAPI, "AddressAPI.for_script_info", "aapi_for_script_info", "address-route")
